@@ -11,7 +11,7 @@ int verif_alloc_active; long verif_alloc_count; long verif_fail_at; int verif_al
 long verif_live_bytes, verif_peak_bytes, verif_live_blocks, verif_live_files, verif_failed_in_call;
 static int in_shim; static long next_id;
 
-#define TAB (1 << 16)
+#define TAB (1 << 20)
 static struct { void *p; long id; size_t sz; int isfile; } tab[TAB];
 
 static void put(void *p, size_t sz, int isfile)
